@@ -106,6 +106,11 @@ def setup(E, shape):
     if not cp:
         lamb_min = E.real("lamb_min", lo=0, lo_strict=True)
         kw.update(lamb_min=lamb_min)
+    ast = shape.get("active_set", "Standard")
+    if ast != "Standard":
+        kw["active_set_type"] = P.ActiveSetType[ast]
+        if ast == "Explicit":
+            kw["active_set_tau"] = 0.25 if cp else E.real("active_set_tau", lo=0, lo_strict=True)
     params = P.Params(**kw)
     clock = boot.Clock(E)
     boot.mod("timer").time = clock
@@ -299,6 +304,14 @@ def ctrl_tasks(tier, extra=None):
             # twin with concrete rho / dt / tolerances: all products with them are linear, so a
             # counterexample found there replays on the real arithmetic
             t.append(dict(module="ctrl", fn="h_step", shape=dict(sh, concrete_params=True), opts=o))
+    # active-set rules (explicit tau, smallest / largest active set)
+    for ast, c, nt, cons in (("SmallestActiveSet", "DistanceRatio", "Simplified", []), ("LargestActiveSet", "DistanceRatio", "Simplified", []), ("Explicit", "Exact", "Full", []), ("SmallestActiveSet", "Exact", "ActiveSet", ["eq0"])):
+        if q and cons:
+            continue
+        sh = dict(controller=c, newton=nt, vars=["boxed"], cons=cons, faults=False, active_set=ast)
+        sh.update(extra or {})
+        t.append(dict(module="ctrl", fn="h_step", shape=sh, opts=o))
+        t.append(dict(module="ctrl", fn="h_step", shape=dict(sh, concrete_params=True), opts=o))
     if not q:
         for v in (["lower"], ["free"], ["fixed"]):
             t.append(dict(module="ctrl", fn="h_step", shape=dict(controller="DistanceRatio", newton="Simplified", vars=v, cons=["eq0"], faults=True), opts=o))
